@@ -107,6 +107,10 @@ package validation
 
 // Cross-validation accepts a manifest group only if, for every kind of compute unit, the replicas of the
 // group's services add up to exactly the replicas the on-chain group orders of that kind.
+// NOT CLAIMED: three obligations of this contract (preservation of the two sum invariants across the in-place update
+// of mlist[idx], and the final postcondition) do not discharge within the time limit - the solvers do not find the
+// instantiations of the sum lemmas; all other 118 obligations do.  The function is therefore covered by a bounded
+// stand-in on the real code (/verif/bounded/c10_crossvalidation_test.go) and is not listed in the property line.
 //@ func validateManifestDeploymentGroup
 //@   uses sumKindNonneg, sumKindStep, sumKindSame, sumKindSuffix, sumKindZero, sumKindBound, sumKindMono, sumKindOfSvc
 //@   requires !fresh(rgResources(dgroup))
@@ -129,4 +133,4 @@ package validation
 //@   loop 5 invariant 0 <= iter
 //@   loop 6 invariant 0 <= iter
 
-//@ property C10 := validateManifestDeploymentGroup#*, lemma:sumKindOfSvc, lemma:sumKindNonneg, lemma:sumKindStep, lemma:sumKindSame, lemma:sumKindSuffix, lemma:sumKindUpd, lemma:sumKindZero, lemma:sumKindBound, lemma:sumKindMono
+//@ property C10 := lemma:sumKindOfSvc, lemma:sumKindNonneg, lemma:sumKindStep, lemma:sumKindSame, lemma:sumKindSuffix, lemma:sumKindUpd, lemma:sumKindZero, lemma:sumKindBound, lemma:sumKindMono
